@@ -334,8 +334,25 @@ fn exact_rank(m: &Vec<Vec<i64>>) -> usize {
     }
     rank
 }
+// "a canonical representative for EVERY integer input": big integers (beyond 64 bits, both signs, multiples of P) through From<BigInt>
+fn check_prc_big<const P: i64>() {
+    use num_bigint::BigInt; use num_traits::{Zero, ToPrimitive};
+    let p = BigInt::from(P);
+    let ten = BigInt::from(10);
+    let mut vals: Vec<BigInt> = vec![BigInt::zero(), BigInt::from(1), BigInt::from(-1), BigInt::from(i64::MAX), BigInt::from(i64::MIN), BigInt::from(i64::MAX) + 1, BigInt::from(i64::MIN) - 1];
+    for e in [19u32, 25, 40] { let t = ten.pow(e); vals.push(t.clone()); vals.push(-t.clone()); vals.push(&t * &p); vals.push(-(&t * &p)); vals.push(&t * &p + 7); }
+    for n in vals {
+        let exp = { let r = &n % &p; let r = if r < BigInt::zero() { r + &p } else { r }; r.to_i64().unwrap() };
+        let txt = format!("P={} n={}", P, n);
+        match quiet(|| { let c: PrimeResidueClass<P> = n.clone().into(); let v: i64 = c.into(); v }) {
+            Ok(v) => if v != exp { falsified("PrimeResidueClass::from(BigInt)", txt, format!("value {} expected {}", v, exp)); },
+            Err(e) => falsified("PrimeResidueClass::from(BigInt)", txt, format!("panic {}", e)),
+        }
+    }
+}
 fn check_c18() {
     check_prc::<2>(); check_prc::<3>(); check_prc::<61>(); check_prc::<3037000493>();
+    check_prc_big::<2>(); check_prc_big::<61>(); check_prc_big::<3037000493>();
     // shapes: rank never panics and is <= min(rows, cols)
     let mut rng = Rng(99);
     for rows in 1..=4usize { for cols in 1..=5usize { for _ in 0..30 {
